@@ -10,8 +10,8 @@ C23-closed  CheckComparisons is lifted as a whole pass on ordering comparisons /
 C23-wrap    on acceptance the rewritten expression has the same meaning as the input for real data.
 C23-real    ComplexNodeRemoval lifted: conj/real removed with unchanged meaning for real data; imag and
             complex literals raise.
-C23-pipe    preprocess_form / compute_form_data run the comparison check iff complex_mode and remove
-            complex nodes iff not complex_mode (guards on the AST).
+C23-pipe    compute_form_data interpreted with recording stand-ins for its passes: the comparison check runs iff
+            complex_mode, complex nodes are removed iff not complex_mode.
 The operand family is extended by a generator: every wrapper chain (conditional then/else branch, sum,
 product, quotient, sin, variable, list-tensor component with fixed and free index) of depth <= 1 (quick) /
 2 (thorough) over the four kinds of leaves (real terminal, complex terminal, real literal, complex literal).
@@ -23,7 +23,6 @@ import ast
 import itertools
 
 from .. import corpus, sym, uflmodel, uflsem
-from ..flow import guard_texts
 from ..lift import LiftRaise, Obj
 from ..model import AnalysisError, norm
 from ..passlift import PassHarness
@@ -245,23 +244,28 @@ def run(ctx) -> Report:
             rep.violation("C23-real", rcls, f"remove_complex_nodes({desc})", f"changed the value for real data: {wit}")
         else:
             rep.violation("C23-real", rcls, f"remove_complex_nodes({desc})", "complex operator nodes remain in the result")
-    # ---- pipeline guards --------------------------------------------------------------------
-    for fname in ("preprocess_form", "compute_form_data"):
-        fi = prog.get_function("ufl.algorithms.compute_form_data", fname)
-        for call in [n for n in ast.walk(fi.node) if isinstance(n, ast.Call) and norm(n.func) in ("do_comparison_check", "remove_complex_nodes")]:
-            g = [t.replace(" ", "") for t in guard_texts(fi.node, call)]
-            cn = norm(call.func)
-            if cn == "do_comparison_check":
-                ok = "complex_mode" in g
+    # ---- pipeline: compute_form_data interpreted with recording stand-ins for its passes (the machinery of C01-pipe) --------
+    from .c01 import FLAGS, pipeline_trace
+
+    fn_cfd = prog.get_function("ufl.algorithms.compute_form_data", "compute_form_data")
+    for others in (False, True):
+        for complex_mode in (False, True):
+            flags = {f: others for f in FLAGS}
+            flags["complex_mode"] = complex_mode
+            what = f"compute_form_data(complex_mode={complex_mode}, every other option {'on' if others else 'off'})"
+            try:
+                trace, _, _ = pipeline_trace(ctx, flags)
+            except LiftRaise as ex:
+                rep.violation("C23-pipe", fn_cfd, what, f"{what} raises {ex.what[:100]}")
+                continue
+            names = [t[0] for t in trace]
+            n_chk, n_rm = names.count("do_comparison_check"), names.count("remove_complex_nodes")
+            if complex_mode and (n_chk < 1 or n_rm):
+                rep.violation("C23-pipe", fn_cfd, what, f"{what}: the comparison check runs {n_chk} times and complex nodes are removed {n_rm} times (complex mode: checked, never removed)")
+            elif not complex_mode and (n_chk or n_rm < 1):
+                rep.violation("C23-pipe", fn_cfd, what, f"{what}: the comparison check runs {n_chk} times and complex nodes are removed {n_rm} times (real mode: removed, comparisons need no check)")
             else:
-                ok = "not(complex_mode)" in g
-            if ok:
-                rep.ok("C23-pipe", (fi, call), f"{fname}: {cn} under `{'complex_mode' if cn == 'do_comparison_check' else 'not complex_mode'}`")
-            else:
-                rep.violation("C23-pipe", (fi, call), norm(call), f"{fname}: {cn} is not guarded by {'complex_mode' if cn == 'do_comparison_check' else 'not complex_mode'} (guards: {g})")
-    pf = prog.get_function("ufl.algorithms.compute_form_data", "preprocess_form")
-    if "do_comparison_check" not in norm(pf.node):
-        rep.violation("C23-pipe", pf, "do_comparison_check", "preprocess_form no longer runs the comparison check in complex mode")
+                rep.ok("C23-pipe", fn_cfd, f"{what}: passes run {names}: comparison check {'runs' if complex_mode else 'does not run'}, complex nodes {'kept' if complex_mode else 'removed'}")
     rep.require_min("C23-closed", 100)
     rep.require_min("C23-wrap", 60)
     rep.require_min("C23-real", 100)
@@ -271,7 +275,7 @@ def run(ctx) -> Report:
         f"CheckComparisons was lifted on {len(ops)} operand shapes x 6 ordering constructs x 2 operand positions; acceptance was compared "
         "with realness of the operand's lifted term under complex data for possibly-complex terminals (soundness), the rewritten "
         "expression with the input under real data; ComplexNodeRemoval lifted on conj/real/imag/complex-literal cases; the "
-        "complex_mode guards of the pipeline checked on the AST."
+        "compute_form_data interpreted in both modes with recording stand-ins for its passes."
     )
     rep.assumptions = ["arguments, geometric quantities and real literals are real; coefficients, constants and complex literals may be complex", "completeness (accepting every real comparison) is not required by the property and not checked"]
     from ..memokey import memo_rule
